@@ -28,7 +28,7 @@ from .canon import canon
 from .events import LAZY_GROUPS
 
 GROUP_ORDER = ["mass", "density", "covalent_radius", "crystal_structure", "neutron",
-               "activation", "xray", "emission", "magnetic_ff", "calc"]
+               "activation", "xray", "emission", "magnetic_ff", "routes", "calc"]
 
 INIT_ENTRIES = {
     "mass": ("periodictable.mass", "init"),
@@ -267,7 +267,8 @@ class Node(object):
         if which == "d2o_match":
             (s,) = a
             nsf = self.module("periodictable.nsf")
-            return canon(nsf.D2O_match(self._formula(tbl, s)))
+            kw = {} if tbl == "public" else {"table": t}
+            return canon(nsf.D2O_match(self._formula(tbl, s), **kw))
         if which == "fasta_const":
             fasta = self.module("periodictable.fasta")
             return canon([fasta.H2O_SLD, fasta.D2O_SLD])
@@ -317,7 +318,11 @@ class Node(object):
             if g not in groups:
                 continue
             keys = {}
-            getattr(self, "dg_" + g)(tbl, t, keys)
+            C.ALIAS = {} if tbl == "public" else {tbl: "public"}
+            try:
+                getattr(self, "dg_" + g)(tbl, t, keys)
+            finally:
+                C.ALIAS = {}
             blob = C.dumps(keys)
             h = C._h(blob.encode())
             if detail or (ref is not None and ref.get(g) != h):
@@ -363,14 +368,13 @@ class Node(object):
         for el in t:
             for n in LAZY_GROUPS["covalent_radius"]:
                 g(keys, el.symbol + "." + n, lambda: getattr(el, n))
-        g(keys, "Fe[56].covalent_radius", lambda: t.Fe[56].covalent_radius)
         g(keys, "Fe{2}.covalent_radius", lambda: t.Fe.ion[2].covalent_radius)
 
     def dg_crystal_structure(self, tbl, t, keys):
         g = self._get
         for el in t:
             g(keys, el.symbol + ".crystal_structure", lambda: el.crystal_structure)
-        g(keys, "Fe[56].crystal_structure", lambda: t.Fe[56].crystal_structure)
+        g(keys, "Fe{2}.crystal_structure", lambda: t.Fe.ion[2].crystal_structure)
 
     def dg_neutron(self, tbl, t, keys):
         g = self._get
@@ -407,7 +411,6 @@ class Node(object):
         for el in t:
             for n in LAZY_GROUPS["emission"]:
                 g(keys, el.symbol + "." + n, lambda: getattr(el, n))
-        g(keys, "Cu[63].K_alpha", lambda: t.Cu[63].K_alpha)
         g(keys, "Cu{2}.K_alpha", lambda: t.Cu.ion[2].K_alpha)
 
     def dg_magnetic_ff(self, tbl, t, keys):
@@ -415,7 +418,15 @@ class Node(object):
         for el in t:
             g(keys, el.symbol + ".magnetic_ff", lambda: el.magnetic_ff)
         g(keys, "Fe{2}.magnetic_ff", lambda: t.Fe.ion[2].magnetic_ff)
-        g(keys, "Fe[56].magnetic_ff", lambda: t.Fe[56].magnetic_ff)
+
+    def dg_routes(self, tbl, t, keys):
+        """Isotope and isotope-ion routes to the element-level groups (need the isotopes of mass.init)."""
+        g = self._get
+        for Z, A, q in ((26, 56, 0), (26, 56, 2), (29, 63, 0), (29, 63, 2), (1, 2, 0), (6, 13, 0)):
+            a = lambda: self.atom(tbl, (Z, A, q))
+            for n in ("covalent_radius", "covalent_radius_units", "crystal_structure", "K_alpha",
+                      "K_alpha_units", "magnetic_ff"):
+                g(keys, "%d/%d/%d.%s" % (Z, A, q, n), lambda: getattr(a(), n))
 
     def dg_calc(self, tbl, t, keys):
         for ev in CALC_BATTERY:
